@@ -175,6 +175,8 @@ PtLineOK(i) ==
 \* the stored values of every class at every returned frame inside the window (0 = not stored), judged by SpStoredOK of the
 \* design module: "sparse storage keeps every logit whose posterior is at least 1e-4 unchanged and nothing else".
 SpC == Tr.nsym + 1
+SpInf == 8000000             \* lb_common.SPINF
+SpBadVal == 1073741823       \* lb_common.BADVAL = 2^30 - 1
 SpPat(i, f) == LET lo == MaxOf(Sub * f, Pad)
                    hi == MinOf(Sub * f + Sub, Pad + PtVis(i))            \* exclusive
                IN IF hi <= lo THEN 1 ELSE 2 + (((hi - Pad - 1) \div Sub + i) % (Len(Tr.pats) - 1))
@@ -186,7 +188,11 @@ SpFrameOK(i, f, row) ==
     IN /\ Len(row) = SpC
        /\ \A c \in 0..(SpC - 1) :
              LET D == SpDist(p, (c - cls + SpC) % SpC)
-             IN IF Md.sparse = 1 THEN SpStoredOK(row[c + 1], p.off - D, D, s8) ELSE row[c + 1] = p.off - D
+                 \* D = SpInf (round 9): the class carries the logit -inf (a zero posterior).  Sparse storage must not store anything for it
+                 \* (SpStoredOK: D >= 10 must be dropped; -inf * 0 = nan would be recorded as SpBadVal); dense modes return -inf itself,
+                 \* which the recorder projects to SpBadVal (lb_common._stored: anything that is not a finite integer)
+             IN IF Md.sparse = 1 THEN SpStoredOK(row[c + 1], p.off - D, D, s8)
+                ELSE row[c + 1] = (IF D = SpInf THEN SpBadVal ELSE p.off - D)
 SpLineOK(i) ==
     LET r == Tr.res[i]
         f0 == IF Md.tight = 1 THEN Pad \div Sub ELSE r.a0
